@@ -36,6 +36,7 @@ type c19Scenario struct {
 	Init     []string `json:"init,omitempty"`  // topology steps already applied when the replay starts
 	Sleep    bool     `json:"sleep,omitempty"` // "one second passes" is an explorer action (in-run retry sleeps)
 	Defer    bool     `json:"defer,omitempty"` // default order: a request passed over once waits behind newer requests, items and sleeps
+	Burst    bool     `json:"burst,omitempty"` // the whole stream arrives in one read (several batches are dispatched before any reply)
 	Preempt  bool     `json:"preempt,omitempty"`
 	Plan     []string `json:"plan,omitempty"` // preemption plan over the wake-up statements of the cluster client and syncer/output.go
 }
@@ -369,6 +370,10 @@ func c19Exec(t *testing.T, scn c19Scenario, ch *mc.Chooser) (rec c19Rec, machine
 				case "item":
 					g.Release(items[pos].raw)
 					pos++
+					for scn.Burst && pos < len(items) {
+						g.Release(items[pos].raw)
+						pos++
+					}
 				case "topo":
 					applyTopo(scn.Topo[topo])
 					topo++
@@ -756,6 +761,33 @@ func runC19(t *testing.T, rep *mc.Reporter) {
 			}
 		}
 	}
+	// ---- family "burst": the whole stream arrives in one read, so the sender dispatches several batches
+	// before the first reply is read: consecutive (transaction) batches for one node are in flight on one
+	// node pipeline when the migration step falls
+	{
+		bb := 2
+		bstreams := [][]int{{0, 3, 0, 3}, {0, 3}, {3, 0, 3}}
+		if tier == "thorough" {
+			bb = 3
+			bstreams = append(bstreams, []int{0, 1, 3, 0}, []int{0, 3, 3, 0, 3})
+		}
+		for _, st := range bstreams {
+			for _, tp := range [][]string{{"O"}, {"M", "F"}, {"M"}} {
+				for _, cfg := range []aofCfg{
+					{Txn: true, Resume: true, Pipeline: true, Count: 1, Bytes: 1 << 20, DbMode: "id"},
+					{Txn: true, Resume: true, Pipeline: true, Count: 2, Bytes: 1 << 20, DbMode: "id"},
+					{Txn: false, Resume: true, Pipeline: true, Count: 1, Bytes: 1 << 20, DbMode: "id"},
+				} {
+					idx++
+					if idx%nshards != shard || budget.Expired() || (fam != "" && fam != "burst") {
+						continue
+					}
+					scn := c19Scenario{Keys: st, Cfg: cfg, Topo: tp, SameNode: cfg.Txn, Burst: true}
+					mc.RunScenario(rep, scn, bb, budget, func(ch *mc.Chooser) mc.Result { return exec(scn, ch) })
+				}
+			}
+		}
+	}
 	// ---- family "long": one flush carrying far more commands for one node than any constant in the
 	// client (per-node batch sizes, pipeline in-flight window of 64): 140 writes to two keys of one
 	// slot, batch size 200; the explorer still chooses which connection's next request the node
@@ -792,14 +824,26 @@ func runC19(t *testing.T, rep *mc.Reporter) {
 	for _, st := range pstreams {
 		for _, in := range pinits {
 			for _, cfg := range cfgs {
+				keys := st
 				if cfg.Txn {
-					continue
+					// transactional mode: everything on node 0 (two slots), consecutive transaction batches share
+					// one node pipeline
+					if !cfg.Pipeline || len(in) > 1 {
+						continue
+					}
+					keys = make([]int, len(st))
+					for i, k := range st {
+						if k == 2 {
+							k = 3
+						}
+						keys[i] = k
+					}
 				}
 				idx++
-				if idx%nshards != shard || budget.Expired() || fam != "" {
+				if idx%nshards != shard || budget.Expired() || (fam != "" && fam != "preempt") {
 					continue
 				}
-				scn := c19Scenario{Keys: st, Cfg: cfg, Init: in, Preempt: true}
+				scn := c19Scenario{Keys: keys, Cfg: cfg, Init: in, Preempt: true, SameNode: cfg.Txn}
 				rep.Scenario()
 				explorePreempt(rep, budget, pbound, func(plan []string, res mc.Result) {
 					sc := scn
